@@ -676,7 +676,8 @@ fn runtime_program(rng: &mut Rng) -> String {
             let n = rng.range(80, 1500);
             match rng.below(4) {
                 0 => format!("loop : (int -> int) = n => if n == 0 then 0 else loop (n - 1)\nloop {n}\n"),
-                1 => format!("sum : (int -> int) = n => if n == 0 then 0 else n + sum (n - 1)\nsum {n}\n"),
+                // not tail recursive: the pending additions nest, so keep it shallow
+                1 => format!("sum : (int -> int) = n => if n == 0 then 0 else n + sum (n - 1)\nsum {}\n", n / 3 + 40),
                 2 => format!("fact : (int -> int) = n => if n == 0 then 1 else n * fact (n - 1)\nfact {}\n", n / 8 + 5),
                 _ => format!(
                     "go : (int -> int -> int) = acc => n => if n == 0 then acc else go (acc + n * n) (n - 1)\ngo 0 {n}\n"
